@@ -82,6 +82,30 @@ HUGE_COUNTS = [I31 - 1, I31, I32 - 1, I32, 1 << 40, (1 << 62) - 1, 1 << 62, (1 <
                I64 // 12, (1 << 63) - 1, -1, -2, -(1 << 31), -(1 << 63)]
 
 
+class Quota:
+    """keeps the three input streams of a generator in proportion by CASE COUNT (a mutated base yields hundreds
+    of cases, a grammar or random draw one): returns the draw that selects the branch of the stream that is
+    furthest behind its share"""
+    TARGET = {"near": 0.55, "grammar": 0.30, "random": 0.15}
+
+    def __init__(self, rng):
+        self.rng, self.seen, self.n = rng, 0, {"near": 0, "grammar": 0, "random": 0}
+
+    @staticmethod
+    def cls(tag):
+        if tag.startswith("grammar") or tag in ("nested", "generic"):
+            return "grammar"
+        return "random" if tag == "random" else "near"
+
+    def draw(self, cases):
+        for c in cases[self.seen:]:
+            self.n[self.cls(c.tag)] += 1
+        self.seen = len(cases)
+        tot = max(1, sum(self.n.values()))
+        k = min(self.n, key=lambda x: self.n[x] / tot - self.TARGET[x])
+        return {"near": 0.0, "grammar": self.rng.choice([0.65, 0.75, 0.84]), "random": 0.95}[k]
+
+
 def mutations(rng, s, budget, fields=True):
     """Malformed neighbours of a valid encoding: exhaustive at every position while the budget allows,
     sampled beyond.  Yields byte strings (the unchanged input is not included)."""
@@ -199,11 +223,11 @@ def counts_for(rng, exact, huge_ok=True, small_only=False):
 
 def gen_rle(rng, n, ops=("rle_all", "rle_stream", "rle_levels", "rle_levels_pref")):
     cases = []
+    quota = Quota(rng)
 
     def add(op, w, count, data, tag):
-        if op == "rle_levels_pref":
-            pass
-        if count > 65536 and rle_yield(data[4:] if op == "rle_levels_pref" else data, max(0, min(w, 255)), 1 << 20) > (1 << 20):
+        dd = data or b""
+        if count > 65536 and rle_yield(dd[4:] if op == "rle_levels_pref" else dd, max(0, min(w, 255)), 1 << 20) > (1 << 20):
             count = 65536
         cases.append(Case(op, w, count, None, data, tag=tag))
 
@@ -220,7 +244,7 @@ def gen_rle(rng, n, ops=("rle_all", "rle_stream", "rle_levels", "rle_levels_pref
         op = rng.choice(ops)
         w = rng.choice([0, 1, 1, 2, 3, 4, 5, 7, 8, 9, 12, 16, 17, 24, 31, 32])
         base, exact = rle_runs(rng, w)
-        kind = rng.random()
+        kind = quota.draw(cases)
         if kind < 0.55:
             # (a) mutations of a valid stream; width usually the right one
             for m in mutations(rng, base, 60 if len(base) > 12 else 400):
@@ -268,6 +292,7 @@ PLAIN_ES = {"bool": None, "i32": 4, "i64": 8, "i96": 12, "f32": 4, "f64": 8}
 
 def gen_plain(rng, n):
     cases = []
+    quota = Quota(rng)
     while len(cases) < n:
         t = rng.choice(["bool", "i32", "i64", "i96", "f32", "f64", "ba", "flba", "disp"])
         exact = rng.choice([0, 1, 2, 3, 7, 8, 9, 17, rng.randrange(0, 30)])
@@ -289,7 +314,7 @@ def gen_plain(rng, n):
         else:  # ba
             lens = [rng.choice([0, 1, 2, 5, rng.randrange(0, 12)]) for _ in range(exact)]
             base = b"".join(struct.pack("<I", k) + rb(rng, k) for k in lens)
-        kind = rng.random()
+        kind = quota.draw(cases)
         if kind < 0.5:
             muts = mutations(rng, base, 120, fields=(t in ("ba", "disp")))
             for m in muts:
@@ -315,13 +340,14 @@ def gen_plain(rng, n):
 
 def gen_bss(rng, n):
     cases = []
+    quota = Quota(rng)
     while len(cases) < n:
         op = rng.choice(["bss_f32", "bss_f64", "bss_flba"])
         k = 4 if op == "bss_f32" else 8 if op == "bss_f64" else rng.choice([1, 2, 3, 5, 16, rng.randrange(1, 24)])
         exact = rng.choice([0, 1, 2, 7, 8, 9, 15, 16, 17, 31, 32, 33, 63, 64, 65, rng.randrange(0, 80)])
         base = rb(rng, exact * k)
         p = k if op == "bss_flba" else 0
-        r = rng.random()
+        r = quota.draw(cases)
         if r < 0.5:
             # declared length around count * width; count around length / width
             for L in {len(base), max(0, len(base) - 1), len(base) + 1, max(0, len(base) - k), 0, rng.randrange(0, len(base) + 1)}:
@@ -407,9 +433,10 @@ def delta_grammar(rng):
 
 def gen_delta(rng, n):
     cases = []
+    quota = Quota(rng)
     while len(cases) < n:
         op = rng.choice(["delta_i32", "delta_i64", "delta_i32", "delta_i64", "delta_len", "delta_str"])
-        r = rng.random()
+        r = quota.draw(cases)
         if op in ("delta_i32", "delta_i64"):
             bits = 32 if op == "delta_i32" else 64
             exact = rng.choice([1, 2, 3, 5, 9, 17, 33, 34, 129, 130, rng.randrange(1, 60)])
@@ -492,6 +519,7 @@ def gen_delta(rng, n):
 
 def gen_dict(rng, n):
     cases = []
+    quota = Quota(rng)
     while len(cases) < n:
         t = rng.choice(["i32", "i64", "f32", "f64"])
         es = 4 if t in ("i32", "f32") else 8
@@ -514,7 +542,7 @@ def gen_dict(rng, n):
                     out += pack_group(w, [idx() for _ in range(8)])
                 total += 8 * g
         base = bytes([w]) + bytes(out)
-        r = rng.random()
+        r = quota.draw(cases)
         if r < 0.45:
             for m in mutations(rng, base, 100):
                 cases.append(Case("dict_" + t, dc, counts_for(rng, total), None, m, dic, tag="mut"))
@@ -634,6 +662,7 @@ def content(rng):
 
 def gen_codec(rng, n, ops=("snappy", "lz4", "gzip", "zstd", "snappy_len")):
     cases = []
+    quota = Quota(rng)
 
     def caps(exact):
         c = rng.choice([0, 1, exact, max(0, exact - 1), exact + 1, exact + 100, rng.randrange(0, exact + 2), 1 << 16])
@@ -654,7 +683,7 @@ def gen_codec(rng, n, ops=("snappy", "lz4", "gzip", "zstd", "snappy_len")):
         else:
             c = content(rng)
             base, exact = zstd_compress(c, rng.choice([1, 3, 19])), len(c)
-        r = rng.random()
+        r = quota.draw(cases)
         if r < 0.6:
             for m in mutations(rng, base, 120 if op in ("gzip", "zstd") else 250, fields=False):
                 cases.append(Case(op, 0, 0, None if op == "snappy_len" else caps(exact), m, tag="mut"))
@@ -880,9 +909,10 @@ def thrift_nested(rng):
 
 def gen_thrift(rng, n):
     cases = []
+    quota = Quota(rng)
     while len(cases) < n:
         op = rng.choice(["thrift_fm", "thrift_ph"])
-        r = rng.random()
+        r = quota.draw(cases)
         base = tc_value(file_metadata_tree(rng) if op == "thrift_fm" else page_header_tree(rng))
         if r < 0.5:
             for m in mutations(rng, base, 250 if len(base) < 60 else 150):
